@@ -96,6 +96,7 @@ func c10UntouchedOnly(c *Ctx, v *FnView, e *E1, dir string, reasons ...Guard) {
 func runC10(c *Ctx) {
 	slowPathStateFresh(c, "S1-per-packet-state")
 	c10ReplyPassesSrcDst(c)
+	alertClearedOnlyWhenConsumed(c, "A1-alert-cleared-only-when-consumed")
 	ext := c.Const("router.External")
 	// T1: who consumes the alert
 	if v := c.View(procT + ".handleIngressRouterAlert"); v != nil {
